@@ -216,6 +216,11 @@ func (d *driver) fire(c Cmd) {
 // collect runs the collector and waits until the finalizer goroutine has
 // processed what the collection queued (a canary allocated here proves it).
 func collect() {
+	collectOnce()
+	collectOnce() // a second round: whatever the first collection queued has certainly been finalized by now
+}
+
+func collectOnce() {
 	canary := new(int32)
 	func() {
 		c := &sentinel{}
@@ -224,13 +229,13 @@ func collect() {
 	for i := 0; i < 3; i++ {
 		runtime.GC()
 	}
-	deadline := time.Now().Add(2 * time.Second)
+	deadline := time.Now().Add(20 * time.Second)
 	for atomic.LoadInt32(canary) == 0 && time.Now().Before(deadline) {
 		runtime.Gosched()
 		time.Sleep(50 * time.Microsecond)
 	}
 	if atomic.LoadInt32(canary) == 0 {
-		panic("collect: canary finalizer did not run within 2 s")
+		panic("collect: canary finalizer did not run within 20 s")
 	}
 	runtime.GC()
 	time.Sleep(200 * time.Microsecond)
